@@ -1,7 +1,7 @@
 (* C14 -- open_files(), num_fds(), io_counters() reflect the descriptor table.
    Statements only; proofs live in C14/Proofs*.v.  Model: C14/Model.v
    (transcription of psutil/_pslinux.py), specification: C14/Spec.v. *)
-From PV Require Import C14.Spec C14.Proofs C14.ProofsIO.
+From PV Require Import C14.Spec C14.Mounts C14.Proofs C14.ProofsIO C14.ProofsMounts.
 
 (* the mode string is the one the flags imply, for every flag word; access mode 3
    (which has no documented mode string) is a KeyError in the code as written *)
@@ -52,3 +52,20 @@ Theorem C14_io_strict_refuted :
                 /\ io_counters true (k_io items) = Exc ValueError.
 Proof. exact io_strict_refuted. Qed.
 Print Assumptions C14_io_strict_refuted.
+
+(* a Process object answers from the procfs mount it was created under: whatever the module-level
+   PROCFS_PATH points at later (another container's view of the same PID) changes nothing ... *)
+Theorem C14_mounts_frame : forall strict m m', m_bound m = m_bound m' ->
+  proc_open_files m = proc_open_files m' /\ proc_num_fds m = proc_num_fds m'
+  /\ proc_io_counters strict m = proc_io_counters strict m'.
+Proof. exact mounts_frame. Qed.
+Print Assumptions C14_mounts_frame.
+
+(* ... and the answer is the exact one for the bound mount's table *)
+Theorem C14_mounts_exact : forall es alive io cur,
+  forallb wf_kfd es = true -> no_mode3 es = true ->
+  alive = true \/ has_closing es = false ->
+  proc_open_files {| m_bound := {| v_fds := map to_model es; v_alive := alive; v_io := io |};
+                     m_current := cur |} = Val (spec_rows es).
+Proof. exact mounts_exact. Qed.
+Print Assumptions C14_mounts_exact.
